@@ -575,7 +575,7 @@ func c05FreshContainerRule(r *core.Run, o *core.O, funcs []*ssa.Function) {
 func c05Panics(r *core.Run) {
 	mapFuncs := r.P.PkgFuncs(mapPkg)
 	r.Explanation += " Round 4 (never panics): kind-restricted reflect.Type methods on reflect.Type parameters of lib/mapping only after the kind was established in the function or at every call site (D8); containers built by reflect.MakeSlice/MakeMap* reach reflect.Value.Set only after an assignability test against the destination (D7 fresh-container); a field value dereferenced because its type is a pointer has passed the allocation step on every hand-over chain (D9)."
-	r.NotDecided += " Also not decided: kind-restricted reflect.Type methods on receivers that are not parameters (reflect.TypeOf(v).Elem() behind ValidatePtr, Deref(t).NumField() of an embedded non-struct field - observed to panic, m.Type().Key() of a reflect.Value parameter); Set of statically typed fresh values (fillDurationValue into an int64 field selected by durationType.Kind() - observed to panic with env=); dereferences selected by a reflect.Kind parameter instead of the field's reflect.Type (fillDurationValue); the pairing value.Type()==fieldType itself."
+	r.NotDecided += " Also not decided: kind-restricted reflect.Type methods on receivers that are not parameters (reflect.TypeOf(v).Elem() behind ValidatePtr, Deref(t).NumField() of an embedded non-struct field - observed to panic, m.Type().Key() of a reflect.Value parameter); dereferences selected by a reflect.Kind parameter instead of the field's reflect.Type (fillDurationValue); the pairing value.Type()==fieldType itself."
 	r.Check("D8/K2/reflect-type-kind-established", "a kind-restricted method of reflect.Type (Key: Map; Elem: Array/Chan/Map/Pointer/Slice; NumField/Field…: Struct; Len: Array; In/Out…: Func; Bits: numeric) invoked on a reflect.Type parameter of a lib/mapping function is reachable only when that type's kind was established: inside the function (a Kind()==K test on the parameter) or at every in-package call site (a Kind()==K test on the very type handed over or on the reflect.Value it was taken from; for requirements that admit Pointer also a test behind a one-level pointer-stripping helper; a type built by reflect.SliceOf/MapOf/PointerTo; or the caller's own parameter with a requirement at least as strong)", func(o *core.O) {
 		if !o.Need(len(mapFuncs) > 0, "package "+mapPkg) {
 			return
@@ -587,6 +587,12 @@ func c05Panics(r *core.Run) {
 			return
 		}
 		c05FreshContainerRule(r, o, mapFuncs)
+	})
+	r.Check("D7/K9/typed-value-set-type-established", "in lib/mapping a reflect.Value.Set(reflect.ValueOf(x)) with x of a static named type T (time.Duration) into a reflect.Value the function was handed is reached only after a reflect.Type was compared with the type T itself (a package-level variable whose only store is reflect.TypeOf(<T>), or AssignableTo) - inside the function or on every path to every in-package call of it; a Kind() test does not establish it (every int64 field has durationType.Kind())", func(o *core.O) {
+		if !o.Need(len(mapFuncs) > 0, "package "+mapPkg) {
+			return
+		}
+		c05TypedSetRule(r, o, mapFuncs)
 	})
 	r.Check("D9/K1/pointer-field-allocated-before-deref", "where a function of lib/mapping that receives a field as (fieldType reflect.Type, value reflect.Value) takes value.Elem() under fieldType.Kind()==Pointer and uses the result, value has passed the allocation step - a call of an allocator (by role: cannot return without value.Set(reflect.New(…)) unless value.IsNil() is false or a Kind()==Pointer test failed), a direct Set(reflect.New(…)) or the false edge of IsNil() - in the function or, following the value up through callers that pass their own parameter on, at every in-package call site; a hand-over inside a type-switch case of the document value is followed only into callers that can supply a document value of that dynamic type", func(o *core.O) {
 		if !o.Need(len(mapFuncs) > 0, "package "+mapPkg) {
